@@ -1436,4 +1436,384 @@ theorem swap_eq (pl : Plan) (g : Bool) (x q : Nat) :
 example : (Plan.applyAll true {} [.fix 3]).fixedChange = [3] ∧ (Plan.applyAll false {} [.fix 3]).fixedChange = [] := by
   decide
 
+
+/-! ## 16. Statement audit: no equation is lost, one end-to-end theorem, non-vacuity, the known findings -/
+
+/-- `blockEqs` reads `wrt.equations[eid]`; the model's `filterMap` would drop an out-of-range id silently (the code raises
+`IndexError`), so the membership is spelled out: the equations of a block are exactly the equations its ids point to -/
+theorem mem_blockEqs (cfg : Config) (b : Block) (e : Expr) :
+    e ∈ blockEqs cfg b ↔ ∃ eid ∈ b.eids, cfg.eqs[eid]? = some e := by
+  simp [blockEqs, List.mem_filterMap]
+
+/-- with in-range ids no equation of the block is dropped -/
+theorem blockEqs_length (cfg : Config) (b : Block) (h : ∀ eid ∈ b.eids, eid < cfg.eqs.length) :
+    (blockEqs cfg b).length = b.eids.length := by
+  have key : ∀ l : List Nat, (∀ eid ∈ l, eid < cfg.eqs.length) →
+      (l.filterMap (fun e => cfg.eqs[e]?)).length = l.length := by
+    intro l
+    induction l with
+    | nil => intro _; rfl
+    | cons x xs ih =>
+      intro hl
+      have hx : x < cfg.eqs.length := hl x (List.mem_cons_self ..)
+      have : cfg.eqs[x]? = some cfg.eqs[x] := List.getElem?_eq_getElem hx
+      rw [List.filterMap_cons, this]
+      simp only [List.length_cons]
+      rw [ih (fun e he => hl e (List.mem_cons_of_mem _ he))]
+  exact key b.eids h
+
+/-- every equation of the system sits in a block that calls the solver: what a *valid* block decomposition provides
+(C16), and exactly what fails in the finding `split-blocks-fully-fixed-quantity`, where an equation is given to a
+block without unknowns -/
+def Covering (cfg : Config) (blocks : List Block) : Prop :=
+  ∀ eid, eid < cfg.eqs.length → ∃ b ∈ blocks, eid ∈ b.eids ∧ blockSkipped cfg b = false
+
+/-- **end-to-end (composition)**: input-level hypotheses only -- the block list is ordered and covering, and the loop,
+run with the accepting wrapper around an *arbitrary* iteration on an *arbitrary* variant, completes. Then EVERY
+equation of the system is within `tol` at the evaluation dates on the stored variant. Cites: exit test + index
+bijection (3), consistency (5), frame (4), block recursion (6, 14), certificate (11). The statement claims nothing for
+equations that sit only in skipped blocks -- hence `Covering`. -/
+theorem all_equations_hold (cfg : Config) (tol : Rat) (s : Solver) (blocks : List Block) (v v' : Variant)
+    (hrun : steadyNonlinear cfg (certify tol cfg.loggable s) blocks v = .ok v')
+    (hord : Ordered cfg blocks) (hcov : Covering cfg blocks) :
+    ∀ e ∈ cfg.eqs, ∀ d ∈ evalDates cfg.flat,
+      ∃ x, e.eval (steadyArray cfg.logly v') d = some x ∧ -tol < x ∧ x < tol := by
+  intro e he d hd
+  obtain ⟨eid, hlt, hget⟩ := List.mem_iff_getElem.mp he
+  obtain ⟨b, hb, hmem, hns⟩ := hcov eid hlt
+  have hin : e ∈ blockEqs cfg b := (mem_blockEqs cfg b e).2 ⟨eid, hmem, by rw [List.getElem?_eq_getElem hlt, hget]⟩
+  exact steadyNonlinear_certified_any_history cfg tol s blocks v v' hrun hord b hb hns e hin d hd
+
+/-- ... and, for the equations of degree ≤ 1 of a growth-mode model whose stored log-variables do not grow, at EVERY
+date within `tol (1 + 2|t|)` -/
+theorem all_affine_equations_hold_every_date (cfg : Config) (hflat : cfg.flat = false) (tol : Rat) (s : Solver)
+    (blocks : List Block) (v v' : Variant)
+    (hrun : steadyNonlinear cfg (certify tol cfg.loggable s) blocks v = .ok v')
+    (hord : Ordered cfg blocks) (hcov : Covering cfg blocks)
+    (hlog : ∀ q, cfg.logly q = true → v'.change q = none ∨ v'.change q = some 1)
+    (e : Expr) (he : e ∈ cfg.eqs) (haff : isAffine (movingOf cfg.logly v') e = true) (t : Int) :
+    ∃ x, e.eval (steadyArray cfg.logly v') t = some x ∧ |x| ≤ tol * (1 + 2 * |(t : Rat)|) := by
+  have h := all_equations_hold cfg tol s blocks v v' hrun hord hcov e he
+  obtain ⟨x0, h0, l0, u0⟩ := h 0 (by simp [evalDates, hflat])
+  obtain ⟨x1, h1, l1, u1⟩ := h 1 (by simp [evalDates, hflat])
+  exact affine_residual_bound_dates_0_1 _ _ (steadyArray_arith cfg.logly v' hlog) e haff tol x0 x1 h0 h1
+    (abs_le.mpr ⟨l0.le, u0.le⟩) (abs_le.mpr ⟨l1.le, u1.le⟩) t
+
+/-- non-vacuity of the end-to-end theorem: the two-block example is covering, so BOTH equations of the system hold -/
+example : ∃ v', steadyNonlinear exCfg (certify (1 / 1000000000000) exCfg.loggable exSolver) exBlocks exV0 = .ok v'
+    ∧ ∀ e ∈ exCfg.eqs, ∀ d ∈ evalDates exCfg.flat,
+        ∃ x, e.eval (steadyArray exCfg.logly v') d = some x ∧ -(1 / 1000000000000 : Rat) < x ∧ x < 1 / 1000000000000 := by
+  have hok : isOk (steadyNonlinear exCfg (certify (1 / 1000000000000) exCfg.loggable exSolver) exBlocks exV0) = true := by
+    decide +kernel
+  cases hrun : steadyNonlinear exCfg (certify (1 / 1000000000000) exCfg.loggable exSolver) exBlocks exV0 with
+  | error e => rw [hrun] at hok; cases hok
+  | ok v' =>
+    exact ⟨v', rfl, all_equations_hold exCfg _ exSolver exBlocks exV0 v' hrun (by unfold Ordered; decide)
+      (by unfold Covering; decide)⟩
+
+/-! ### flat mode with a stale history (non-vacuity of section 14) -/
+
+def exCfgFlat : Config := { exCfg with flat := true, eqs := [exEqs.headD (.num 0)] }
+/-- a variant that still carries trends from an earlier growth-mode solve -/
+def exStale : Variant := ⟨fun q => if q = 0 then some 7 else none, fun q => if q < 2 then some 3 else none⟩
+
+example : ∃ v', steadyNonlinear exCfgFlat (certify (1 / 1000000000000) exCfgFlat.loggable (fun _ _ => some [2])) [⟨[0], [0]⟩]
+      exStale = .ok v'
+    ∧ v'.change 0 = some 0 ∧ v'.change 1 = some 0
+    ∧ ∀ e ∈ exCfgFlat.eqs, ∀ d ∈ evalDates exCfgFlat.flat,
+        ∃ x, e.eval (steadyArray exCfgFlat.logly v') d = some x ∧ -(1 / 1000000000000 : Rat) < x ∧ x < 1 / 1000000000000 := by
+  have hok : isOk (steadyNonlinear exCfgFlat (certify (1 / 1000000000000) exCfgFlat.loggable (fun _ _ => some [2]))
+      [⟨[0], [0]⟩] exStale) = true := by decide +kernel
+  cases hrun : steadyNonlinear exCfgFlat (certify (1 / 1000000000000) exCfgFlat.loggable (fun _ _ => some [2]))
+      [⟨[0], [0]⟩] exStale with
+  | error e => rw [hrun] at hok; cases hok
+  | ok v' =>
+    have hstep : blockStep exCfgFlat (certify (1 / 1000000000000) exCfgFlat.loggable (fun _ _ => some [2])) 0 ⟨[0], [0]⟩ exStale
+        = .ok v' := by
+      unfold steadyNonlinear blockLoopFrom at hrun
+      split at hrun
+      · cases hrun
+      · rename_i v1 h1
+        simp only [blockLoopFrom] at hrun
+        cases hrun; exact h1
+    have hch := blockStep_flat_resets_all exCfgFlat rfl _ 0 ⟨[0], [0]⟩ exStale v' hstep (by decide)
+    refine ⟨v', rfl, ?_, ?_, all_equations_hold exCfgFlat _ _ _ exStale v' hrun (by unfold Ordered; decide)
+      (by unfold Covering; decide)⟩
+    · rw [hch]; decide
+    · rw [hch]; decide
+
+/-! ### write-back reaches every block quantity, whatever its kind -/
+
+/-- **every unknown level of the block is written** -/
+theorem writeBack_level_written (loggable : Nat → Bool) (ev : Evaluator) (g : List Rat) (v : Variant) (q : Nat)
+    (hq : q ∈ ev.wrtLevel) (hlen : ev.wrtLevel.length ≤ (ev.guessLevels g).length) :
+    ∃ x, Evaluator.lookup ev.wrtLevel (ev.guessLevels g) q = some x ∧ (writeBack loggable ev g v).level q = some x := by
+  obtain ⟨x, hx⟩ := lookup_of_mem _ _ q hq hlen
+  exact ⟨x, hx, by rw [writeBack_level_eq, hx]⟩
+
+/-- **every unknown change of a loggable quantity is written** -- transition, measurement and exogenous variables alike
+(`kind in LOGGABLE_VARIABLE`); only non-variables (endogenized parameters) are filtered out -/
+theorem writeBack_change_written (loggable : Nat → Bool) (ev : Evaluator) (g : List Rat) (v : Variant) (q : Nat)
+    (hq : q ∈ ev.wrtChange) (hlog : ∀ q ∈ ev.wrtChange, loggable q = true)
+    (hlen : ev.wrtChange.length ≤ (ev.guessChanges g).length) :
+    ∃ x, Evaluator.lookup ev.wrtChange (ev.guessChanges g) q = some x ∧ (writeBack loggable ev g v).change q = some x := by
+  obtain ⟨x, hx⟩ := lookup_of_mem _ _ q hq hlen
+  exact ⟨x, hx, by rw [writeBack_change_eq _ _ _ _ _ hlog, hx]⟩
+
+/-- a filter that knows only some of the loggable kinds (say transition variables, qid 0) loses the change of the others
+(a measurement variable, qid 1): the stored variant differs -- the filter is observable -/
+example :
+    (writeBack (fun _ => true) ⟨false, fun _ => false, [0, 1], [0, 1], [], exV0⟩ [1, 2, 3, 4] exV0).change 1 = some 4
+    ∧ (writeBack (fun q => q = 0) ⟨false, fun _ => false, [0, 1], [0, 1], [], exV0⟩ [1, 2, 3, 4] exV0).change 1 = none := by
+  decide +kernel
+
+/-! ### which version of an equation is solved -/
+
+/-- the steady algorithms see the part after `!!` when there is one, the only version otherwise -/
+theorem steadyVersion_spec (d st : Expr) :
+    (Equation.steadyVersion ⟨d, some st⟩) = st ∧ (Equation.steadyVersion ⟨d, none⟩) = d := by
+  simp [Equation.steadyVersion]
+
+/-- `pi = pi[-1] + 1/4 yg !! pi = pit` (pi: 1, yg: 0, pit: parameter 2 with value 2): the constant of the first-order
+system comes from the steady version (2); the dynamic version would give 0 and leave the level of `pi` open -/
+example :
+    linearConstants (fun q => q = 2) (fun _ => false) (fun q => if q = 2 then some 2 else none)
+      [⟨.add (.neg (.tok 1 0)) (.add (.tok 1 (-1)) (.mul (.num (1/4)) (.tok 0 0))),
+        some (.add (.neg (.tok 1 0)) (.tok 2 0))⟩] = [some 2]
+    ∧ linearConstants (fun q => q = 2) (fun _ => false) (fun q => if q = 2 then some 2 else none)
+      [⟨.add (.neg (.tok 1 0)) (.add (.tok 1 (-1)) (.mul (.num (1/4)) (.tok 0 0))), none⟩] = [some 0] := by
+  decide +kernel
+
+/-! ### the two recorded findings, machine-checked on the model of the current code -/
+
+/-- **finding `linear-steady-ignores-exogenous-variables`**: `y = 1/2 y[-1] + 2 z + 1` (y: 0, exogenous z: 1 with level 10).
+The constant of the first-order system is formed at the zero point, where the exogenous `z` counts as 0: `C = 1`; the
+flat linear algorithm on `A = 1, B = -1/2, C = 1`... in the code's sign convention `A ξ + B ξ₋₁ + C = 0` with the residual
+`-y + 1/2 y[-1] + 2 z + 1`: `A = -1, B = 1/2` ... returns `y = 2`; on the stored steady array (z = 10) the equation is off
+by 20 -/
+example :
+    let eq : Expr := .add (.neg (.tok 0 0)) (.add (.add (.mul (.num (1/2)) (.tok 0 (-1))) (.mul (.num 2) (.tok 1 0))) (.num 1))
+    let level : Nat → Cell := fun q => if q = 1 then some 10 else none
+    linearConstants (fun _ => false) (fun _ => false) level [⟨eq, none⟩] = [some 1]
+    ∧ (Linear.solveFlat (QMat.ofRows [[-1]]) (QMat.ofRows [[1/2]]) (QMat.ofRows [[1]])).map (fun x => x.get 0 0) = some 2
+    ∧ eq.eval (steadyArray (fun _ => false) ⟨fun q => if q = 0 then some 2 else some 10, fun _ => none⟩) 0 = some 20 := by
+  decide +kernel
+
+/-- **finding `split-blocks-fully-fixed-quantity`** (the mechanism, on the block loop of the current code): `t` (qid 0) has
+level and change fixed by the plan, its drift `d` (qid 2) is endogenized, `v` (qid 1) is to be found from `v = t`.
+A block ordering that hands the equation of `v` to the fully fixed `t` -- what `blaze` returns for the non-square
+incidence matrix (4 equations, 5 columns in the recorded case) -- makes that block one that "needs no solver": it is
+skipped, the loop completes without error, and the equation of `v` is off by 4 on the stored variant.
+`Covering` is what this block list lacks; `all_equations_hold` does not apply. -/
+example :
+    let eqs : List Expr := [ .add (.neg (.tok 1 0)) (.tok 0 0),                              -- v = t
+                             .add (.neg (.tok 0 0)) (.add (.tok 0 (-1)) (.tok 2 0)) ]        -- t = t[-1] + d
+    let cfg : Config := { flat := false, logly := fun _ => false, isVar := fun q => q < 2, loggable := fun q => q < 2,
+                          eqs := eqs, fixedLevel := [0], fixedChange := [0, 2] }
+    let blocks : List Block := [⟨[0], [0]⟩, ⟨[1], [2]⟩]
+    let v0 : Variant := ⟨fun q => if q = 0 then some 1 else if q = 1 then some 5 else some (1/4),
+                         fun q => if q = 0 then some 1 else none⟩
+    blockSkipped cfg ⟨[0], [0]⟩ = true
+    ∧ (match steadyNonlinear cfg (certify (1 / 1000000000000) cfg.loggable (fun _ _ => some [1])) blocks v0 with
+       | .ok v' => v'.level 2 == some 1 && (eqs.headD (.num 0)).eval (steadyArray cfg.logly v') 0 == some (-4)
+       | .error _ => false) = true := by
+  decide +kernel
+
+/-! ### non-vacuity of the remaining property-level theorems -/
+
+/-- `updateAutovalues_holds` on a concrete instance: `aux (qid 5) := 2 x[-1] + 1` with `x = (3, 1/2)` gives `aux = 6` -/
+example :
+    let autos : List (Nat × Expr) := [(5, .add (.mul (.num 2) (.tok 0 (-1))) (.num 1))]
+    let v : Variant := ⟨fun q => if q = 0 then some 3 else none, fun q => if q = 0 then some (1/2) else none⟩
+    (updateAutovalues (fun _ => false) autos v).level 5 = some 6 := by
+  decide +kernel
+
+/-- `affine_residual_bound_dates_0_1` on a concrete instance: residual `1/1000 + 1/1000 · t` of `-x + y` with
+`x = (0, 0)`, `y = (1/1000, 1/1000)`: within `2/1000` at dates 0 and 1, hence within `2/1000 · (1 + 2·5)` at date 5 -/
+example : ∃ x, (Expr.add (.neg (.tok 0 0)) (.tok 1 0)).eval
+      (steadyArray (fun _ => false) ⟨fun q => if q = 0 then some 0 else some (1/1000), fun q => if q = 0 then some 0 else some (1/1000)⟩) 5
+      = some x ∧ |x| ≤ (2 / 1000 : Rat) * (1 + 2 * |((5 : Int) : Rat)|) := by
+  refine affine_residual_bound_dates_0_1 (fun _ => true) _ ?harr _ (by decide) (2 / 1000) (1 / 1000) (2 / 1000)
+    ?h0 ?h1 ?b0 ?b1 5
+  case harr =>
+    intro q
+    by_cases hq : q = 0
+    · exact Or.inr ⟨0, 0, ⟨fun _ => rfl, fun s => by simp [steadyArray, steadyCell, hq]⟩⟩
+    · exact Or.inr ⟨1 / 1000, 1 / 1000, ⟨fun h => by simp at h, fun s => by simp [steadyArray, steadyCell, hq]⟩⟩
+  case h0 => decide +kernel
+  case h1 => decide +kernel
+  case b0 => norm_num [abs_of_pos]
+  case b1 => norm_num [abs_of_pos]
+
+
+/-! ## 17. The geometric analogue of section 8: log-linear equations on balanced-growth paths -/
+
+/-- a monomial: products, quotients, natural powers and signs of constants and tokens (no sums) -/
+def isMono : Expr → Bool
+  | .num _ => true
+  | .tok _ _ => true
+  | .neg a => isMono a
+  | .mul a b => isMono a && isMono b
+  | .div a b => isMono a && isMono b
+  | .pow a _ => isMono a
+  | .add _ _ => false
+  | .sub _ _ => false
+
+/-- every row of the array is missing, or a geometric path `l · c^s` with a positive gross rate (constant rows: `c = 1`) -/
+def GeoArray (arr : SArray) : Prop :=
+  ∀ q, (∀ s, arr q s = none) ∨ ∃ l c : Rat, 0 < c ∧ ∀ s : Int, arr q s = some (l * c ^ s)
+
+def GeoShape (f : Int → Cell) : Prop := (∀ t, f t = none) ∨ ∃ a r : Rat, 0 < r ∧ ∀ t : Int, f t = some (a * r ^ t)
+
+/-- **a monomial evaluates along geometric paths to `a · r^t`** (or is undefined at every date) -/
+theorem mono_shape (arr : SArray) (h : GeoArray arr) (e : Expr) (he : isMono e = true) :
+    GeoShape (fun t => e.eval arr t) := by
+  induction e with
+  | num q => exact Or.inr ⟨q, 1, one_pos, fun t => by simp [Expr.eval]⟩
+  | tok q s =>
+    rcases h q with hn | ⟨l, c, hc, hp⟩
+    · exact Or.inl (fun t => by simp [Expr.eval, hn])
+    · exact Or.inr ⟨l * c ^ s, c, hc, fun t => by
+        simp only [Expr.eval, hp]; rw [zpow_add₀ (ne_of_gt hc)]; congr 1; ring⟩
+  | add a b _ _ => simp [isMono] at he
+  | sub a b _ _ => simp [isMono] at he
+  | neg a ih =>
+    rcases ih (by simpa [isMono] using he) with hn | ⟨x, r, hr, hx⟩
+    · exact Or.inl (fun t => by have := hn t; simp only at this; simp [Expr.eval, this])
+    · exact Or.inr ⟨-x, r, hr, fun t => by have := hx t; simp only at this; simp [Expr.eval, this]⟩
+  | pow a n ih =>
+    rcases ih (by simpa [isMono] using he) with hn | ⟨x, r, hr, hx⟩
+    · exact Or.inl (fun t => by have := hn t; simp only at this; simp [Expr.eval, this])
+    · refine Or.inr ⟨x ^ n, r ^ n, pow_pos hr n, fun t => ?_⟩
+      have := hx t; simp only at this
+      simp only [Expr.eval, this, mul_pow]
+      congr 2
+      rw [← zpow_natCast, ← zpow_mul, mul_comm, zpow_mul, zpow_natCast]
+  | mul a b iha ihb =>
+    simp only [isMono, Bool.and_eq_true] at he
+    rcases iha he.1 with hn | ⟨x, r, hr, hx⟩
+    · exact Or.inl (fun t => by have := hn t; simp only at this; simp [Expr.eval, this])
+    · rcases ihb he.2 with hn | ⟨y, r', hr', hy⟩
+      · exact Or.inl (fun t => by have := hn t; simp only at this; simp [Expr.eval, this])
+      · exact Or.inr ⟨x * y, r * r', mul_pos hr hr', fun t => by
+          have h1 := hx t; have h2 := hy t; simp only at h1 h2
+          simp only [Expr.eval, h1, h2, mul_zpow]; congr 1; ring⟩
+  | div a b iha ihb =>
+    simp only [isMono, Bool.and_eq_true] at he
+    rcases iha he.1 with hn | ⟨x, r, hr, hx⟩
+    · exact Or.inl (fun t => by have := hn t; simp only at this; simp [Expr.eval, this])
+    · rcases ihb he.2 with hn | ⟨y, r', hr', hy⟩
+      · exact Or.inl (fun t => by have := hn t; simp only at this; simp [Expr.eval, this])
+      · by_cases hy0 : y = 0
+        · exact Or.inl (fun t => by
+            have h1 := hx t; have h2 := hy t; simp only at h1 h2; simp [Expr.eval, h1, h2, hy0])
+        · refine Or.inr ⟨x / y, r / r', div_pos hr hr', fun t => ?_⟩
+          have h1 := hx t; have h2 := hy t; simp only at h1 h2
+          have hne : y * r' ^ t ≠ 0 := mul_ne_zero hy0 (zpow_ne_zero _ (ne_of_gt hr'))
+          simp only [Expr.eval, h1, h2, hne, if_false, div_zpow]
+          congr 1
+          field_simp
+
+/-- **zero at two dates ⇒ zero at every date, geometric case**: an equation `lhs = rhs` between two monomials (the code's
+residual `-(lhs) + rhs`) on geometric paths -- every log-linear balanced-growth equation such as `y = a·k[-1]^2 / n`,
+`c[+1]/c = β·r`, `m1 = la · m2[-1]`. If the residual vanishes at two distinct dates, both sides grow at the same rate and
+the residual vanishes at every date. -/
+theorem mono_residual_zero_everywhere (arr : SArray) (h : GeoArray arr) (l r : Expr)
+    (hl : isMono l = true) (hr : isMono r = true) (t0 t1 : Int) (hne : t0 ≠ t1)
+    (h0 : (Expr.add (.neg l) r).eval arr t0 = some 0) (h1 : (Expr.add (.neg l) r).eval arr t1 = some 0) :
+    ∀ t, (Expr.add (.neg l) r).eval arr t = some 0 := by
+  rcases mono_shape arr h l hl with hn | ⟨a₁, r₁, hr₁, hL⟩
+  · have := hn t0; simp only at this; simp [Expr.eval, this] at h0
+  rcases mono_shape arr h r hr with hn | ⟨a₂, r₂, hr₂, hR⟩
+  · have := hn t0; simp only at this
+    have hL0 := hL t0; simp only at hL0
+    simp [Expr.eval, this, hL0] at h0
+  have val : ∀ t, (Expr.add (.neg l) r).eval arr t = some (-(a₁ * r₁ ^ t) + a₂ * r₂ ^ t) := by
+    intro t
+    have h1' := hL t; have h2' := hR t; simp only at h1' h2'
+    simp [Expr.eval, h1', h2']
+  rw [val] at h0 h1
+  have e0 : a₁ * r₁ ^ t0 = a₂ * r₂ ^ t0 := by
+    have := Option.some.inj h0; linarith
+  have e1 : a₁ * r₁ ^ t1 = a₂ * r₂ ^ t1 := by
+    have := Option.some.inj h1; linarith
+  have p1 : ∀ t : Int, r₁ ^ t ≠ 0 := fun t => zpow_ne_zero _ (ne_of_gt hr₁)
+  have p2 : ∀ t : Int, r₂ ^ t ≠ 0 := fun t => zpow_ne_zero _ (ne_of_gt hr₂)
+  intro t
+  rw [val]
+  by_cases ha : a₁ = 0
+  · have : a₂ = 0 := by
+      rw [ha, zero_mul] at e0
+      rcases mul_eq_zero.mp e0.symm with h' | h'
+      · exact h'
+      · exact absurd h' (p2 t0)
+    simp [ha, this]
+  · -- both coefficients are non-zero; the ratio of the rates is 1
+    have ha2 : a₂ ≠ 0 := by
+      intro h'; rw [h', zero_mul] at e0
+      rcases mul_eq_zero.mp e0 with h'' | h''
+      · exact ha h''
+      · exact absurd h'' (p1 t0)
+    have hρ : (r₂ / r₁) ^ t0 = (r₂ / r₁) ^ t1 := by
+      have q0 : (r₂ / r₁) ^ t0 = a₁ / a₂ := by
+        rw [div_zpow]; field_simp; linarith
+      have q1 : (r₂ / r₁) ^ t1 = a₁ / a₂ := by
+        rw [div_zpow]; field_simp; linarith
+      rw [q0, q1]
+    have hρ1 : r₂ / r₁ = 1 := by
+      by_contra hcon
+      exact hne ((zpow_right_inj₀ (div_pos hr₂ hr₁) hcon).mp hρ)
+    have hrr : r₂ = r₁ := by
+      have := (div_eq_one_iff_eq (ne_of_gt hr₁)).mp hρ1; exact this
+    subst hrr
+    have haa : a₁ = a₂ := mul_right_cancel₀ (p2 t0) e0
+    rw [haa]; simp
+
+/-- the steady array of a variant is geometric when its non-log quantities do not move (log-variables may grow at any
+positive rate): the balanced-growth situation -/
+theorem steadyArray_geo (logly : Nat → Bool) (v : Variant)
+    (hnon : ∀ q, logly q = false → v.change q = none ∨ v.change q = some 0)
+    (hpos : ∀ q, logly q = true → v.change q = none ∨ ∃ c, v.change q = some c ∧ 0 < c) :
+    GeoArray (steadyArray logly v) := by
+  intro q
+  unfold steadyArray
+  cases hl : v.level q with
+  | none => exact Or.inl (fun s => by simp [steadyCell])
+  | some l =>
+    cases hlg : logly q with
+    | false =>
+      refine Or.inr ⟨l, 1, one_pos, fun s => ?_⟩
+      rcases hnon q hlg with hc | hc <;> simp [steadyCell, hc]
+    | true =>
+      by_cases hp : l ≤ 0
+      · exact Or.inl (fun s => by simp [steadyCell, hp])
+      · rcases hpos q hlg with hc | ⟨c, hc, hcp⟩
+        · exact Or.inr ⟨l, 1, one_pos, fun s => by simp [steadyCell, hp, hc, ratZpow_eq_zpow]⟩
+        · exact Or.inr ⟨l, c, hcp, fun s => by simp [steadyCell, hp, hc, hcp, ratZpow_eq_zpow]⟩
+
+/-- **every date for the stored balanced-growth path**: a monomial equation that holds exactly at dates 0 and 1 on the
+stored steady array holds at every date -/
+theorem stored_balanced_growth_every_date (logly : Nat → Bool) (v : Variant)
+    (hnon : ∀ q, logly q = false → v.change q = none ∨ v.change q = some 0)
+    (hpos : ∀ q, logly q = true → v.change q = none ∨ ∃ c, v.change q = some c ∧ 0 < c)
+    (l r : Expr) (hl : isMono l = true) (hr : isMono r = true)
+    (h0 : (Expr.add (.neg l) r).eval (steadyArray logly v) 0 = some 0)
+    (h1 : (Expr.add (.neg l) r).eval (steadyArray logly v) 1 = some 0) :
+    ∀ t, (Expr.add (.neg l) r).eval (steadyArray logly v) t = some 0 :=
+  mono_residual_zero_everywhere _ (steadyArray_geo logly v hnon hpos) l r hl hr 0 1 (by decide) h0 h1
+
+/-- non-vacuity: `c = 3/4 · y` with `y = (2, 17/16)`, `c = (3/2, 17/16)` (both log-variables) holds at dates 0 and 1, hence
+at every date; the equation is a monomial equation, `c = 3/4·y + 1` is not -/
+example : ∀ t, (Expr.add (.neg (.tok 1 0)) (.mul (.num (3/4)) (.tok 0 0))).eval
+    (steadyArray (fun _ => true) ⟨fun q => if q = 0 then some 2 else some (3/2), fun _ => some (17/16)⟩) t = some 0 := by
+  apply stored_balanced_growth_every_date
+  · intro q hq; cases hq
+  · intro q _; exact Or.inr ⟨17/16, rfl, by norm_num⟩
+  · decide
+  · decide
+  · decide +kernel
+  · decide +kernel
+
+example : isMono (.add (.mul (.num (3/4)) (.tok 0 0)) (.num 1)) = false := by decide
+
 end IrisVerif.C05
